@@ -50,6 +50,17 @@ class Money:
     def __format__(self, spec): return 'M' + format(self.value, spec)
     def __trunc__(self): return 77
     def __round__(self, n=None): return 'rounded-money'
+class Bag:
+    """iterable and nothing else: membership, list(), iter() fall back on __iter__"""
+    def __iter__(self): return iter([1, 2, 3])
+class Once:
+    """a one-shot iterator (like a generator) with value-based identity, so two independent ones behave alike"""
+    def __init__(self): self.it = iter([1, 2, 3])
+    def __iter__(self): return self
+    def __next__(self): return next(self.it)
+    def __repr__(self): return 'Once()'
+    def __hash__(self): return 11
+    def __eq__(self, o): return isinstance(o, Once)
 class Decline:
     """declines everything"""
     def __add__(self, o): return NotImplemented
@@ -59,7 +70,7 @@ class Decline:
 '''
 REPR = {"int": "3", "negint": "-2", "zero": "0", "float": "2.5", "bool": "True", "str": "'ab'", "list": "[1, 2]",
         "tuple": "(1, 2)", "dict": "{'a': 1}", "set": "{1, 2}", "none": "None", "complex": "(1+2j)",
-        "sub": "Vec((10, 20))", "fwd": "Fwd()", "refl": "Refl()", "decline": "Decline()", "valobj": "Money(5)"}
+        "sub": "Vec((10, 20))", "fwd": "Fwd()", "refl": "Refl()", "decline": "Decline()", "valobj": "Money(5)", "iterobj": "Bag()", "gen": "Once()"}
 
 BIN = {"add": operator.add, "sub": operator.sub, "mul": operator.mul, "truediv": operator.truediv,
        "floordiv": operator.floordiv, "mod": operator.mod, "divmod": divmod, "pow": operator.pow,
@@ -74,8 +85,10 @@ UN = {"neg": operator.neg, "pos": operator.pos, "abs": abs, "invert": operator.i
       "iter": lambda a: list(iter(a)), "hash": hash, "bool": bool, "str": str, "repr": repr, "int": int,
       "float": float, "complex": complex, "round": round, "trunc": math.trunc, "floor": math.floor,
       "ceil": math.ceil, "pow3": lambda a: pow(a, 2, 5), "index": lambda a: [10, 20, 30, 40][a],
-      "reversed": lambda a: list(reversed(a)), "bytes": lambda a: bytes(a)}
+      "reversed": lambda a: list(reversed(a)), "bytes": lambda a: bytes(a),
+      "next": lambda a: next(a), "forloop": lambda a: [x for x in a], "unpack": lambda a: [*a]}
 # placements that make sense: for these binary entries only the first operand can be the proxy
+ONE_SHOT = {"gen"}
 LEFT_ONLY = {"contains", "getitem", "isinstance", "format", "round2"}
 
 
@@ -92,6 +105,8 @@ class World:
     def pair(self, cls):
         """(proxy from evaluate(), independent real value built the same way)"""
         proxy = self.S.evaluate(REPR[cls])
+        if cls in ONE_SHOT:            # consumed by the first use: the real side gets its own, equal, object
+            return proxy, unwrap(self.S.evaluate(REPR[cls]))
         # the real value is the very object behind the proxy (identity-based str/repr/hash would differ otherwise)
         real = unwrap(proxy)
         return proxy, real
@@ -132,7 +147,7 @@ def same(a, b):
             if type(a).__name__ == type(b).__name__:
                 return True
             return False
-        if type(a).__name__ in ("Fwd", "Refl", "Decline"):
+        if type(a).__name__ in ("Fwd", "Refl", "Decline", "Bag"):
             return type(a).__name__ == type(b).__name__
         return bool(a == b)
     except Exception:
@@ -150,10 +165,11 @@ def observe(w, cell):
         fn = BIN[op]
         pb, rb = w.pair(cell["b"])
         real = outcome(fn, ra, rb)
+        # a one-shot operand used unproxied on the proxied side must not be the one the real side consumed
         if place == "left":
-            prox = outcome(fn, pa, rb)
+            prox = outcome(fn, pa, w.pair(cell["b"])[1] if cell["b"] in ONE_SHOT else rb)
         elif place == "right":
-            prox = outcome(fn, ra, pb)
+            prox = outcome(fn, w.pair(cell["a"])[1] if cell["a"] in ONE_SHOT else ra, pb)
         else:
             prox = outcome(fn, pa, pb)
     notimpl = prox[0] == "ok" and unwrap(prox[1]) is NotImplemented
